@@ -69,9 +69,9 @@ class Chain(PipeScenario):
             loop = self.ioloop
             md = lambda x, i: [{"ref": RefCounter(loop=loop)}]     # noqa: E731
         if p.get("nprod", 1) == 1:
-            self.add_producer("p", self.src, list(range(1, n + 1)), mode=p["mode"], metadata=md)
+            self.add_producer("p", self.src, list(range(0, n)), mode=p["mode"], metadata=md)
         else:
-            self.add_producer("p", self.src, list(range(1, n + 1)), mode=p["mode"], metadata=md)
+            self.add_producer("p", self.src, list(range(0, n)), mode=p["mode"], metadata=md)
             self.add_producer("q", self.src, [101, 102][: max(1, n - 1)], mode=p["mode"], metadata=md)
 
     # (a) evaluated at the moment the emit completes
@@ -393,7 +393,7 @@ class Threaded(ThreadedMixin, PipeScenario):
             self.nodes.append(node)
         self.attach_sink(node)
         n = p["n"]
-        self.add_emitter("t", self.src, list(range(1, n + 1)))
+        self.add_emitter("t", self.src, list(range(0, n)))
         if p.get("nthreads", 1) == 2:
             self.add_emitter("u", self.src, [101, 102][:n])
 
